@@ -394,6 +394,16 @@ func runC15(c *Ctx) {
 			}
 		})
 		c.check(good, "handler-appends-respopt", h.Pos(), "the handler appends RespOpt() only when non-nil", "the server handler does not append the response OPT exactly when there is one")
+		// the append is the handler's only write to a section of the reply (nothing clears Extra afterwards)
+		nSec := 0
+		eachInstr(h, func(in ssa.Instruction) {
+			if st, ok := in.(*ssa.Store); ok {
+				if k, _ := fieldKey(st.Addr); k == "github.com/miekg/dns.Msg.Extra" || k == "github.com/miekg/dns.Msg.Answer" || k == "github.com/miekg/dns.Msg.Ns" {
+					nSec++
+				}
+			}
+		})
+		c.check(nSec == 1, "handler-keeps-sections", h.Pos(), "the handler's only write to the reply's sections is the OPT append", fmt.Sprintf("the handler writes the reply's sections %d times: a later write (e.g. clearing Extra on truncated replies) drops the response OPT the client is owed", nSec))
 		// every reply that is packed passed the RespOpt decision
 		pk := h.Params[len(h.Params)-1]
 		var respOptCall ssa.Instruction
